@@ -157,7 +157,7 @@ def run(ctx, which):
     if ctx.shard == 0:
         run_repo_tests(ctx, which)
         return
-    if ctx.shard == 1:
+    if ctx.shard in (1, 2, 3, 4):
         run_special(ctx, which)
     run_generated(ctx, which, n)
 
@@ -174,9 +174,166 @@ def run_repo_tests(ctx, which):
     run_under_monitors(ctx, ['resolver_mon'])
 
 
+UNIT_STUDENT = "def add(a, b):\n    if a > 4:\n        return 0\n    return a + b\nx = 9\ny = 1\np = 1\nq = 2\n"
+UNIT_CASES = {'T': ((1, 2), 3), 'F': ((9, 1), 10), 'ST': ("p, q", 3), 'SF': ("x, y", 10), 'T2': ((2, 2), 4), 'F2': ((5, 5), 10)}
+
+
 def run_special(ctx, which):
-    pass
+    """Scenarios built with real tools (sandbox, unit_test, verify, TIFA, assertions) instead of hand-made Feedback objects."""
+    rng = ctx.rng
+    if which == 'C03':
+        for _ in range(ctx.pick(150, 3000)):
+            n = rng.choice([1, 2, 4, 5, 10])
+            names = [rng.choice(list(UNIT_CASES)) for _ in range(n)]
+            total = rng.choice([50, 100, 20, 40])
+            mode = rng.choice(['total-partial', 'total-partial', 'list', 'single', 'total-all-or-nothing', 'total-partial-numeric'])
+            run_scenario(ctx, which, {'kind': 'scenario', 'scenario': 'unit_test', 'cases': names, 'total': total, 'mode': mode})
+    if which == 'C02':
+        import itertools
+        pieces = ['syntax-error', 'runtime-error', 'tifa-issue', 'failed-assert', 'explain', 'set_correct', 'compliment', 'give_partial',
+                  'muted-negative', 'suppressed-negative', 'passing-assert']
+        for _ in range(ctx.pick(60, 1500)):
+            k = rng.randint(2, 4)
+            chosen = rng.sample(pieces, k)
+            orders = list(itertools.permutations(range(k)))
+            rng.shuffle(orders)
+            for order in orders[:ctx.pick(3, 24)]:
+                run_scenario(ctx, which, {'kind': 'scenario', 'scenario': 'tools', 'pieces': [chosen[i] for i in order]})
 
 
 def run_scenario(ctx, which, case):
-    pass
+    from pedal.core.commands import clear_report, contextualize_report
+    from pedal.resolvers import simple
+    from oracles import resolver_model as model
+    if case['scenario'] == 'unit_test':
+        from pedal.sandbox.commands import run
+        from pedal.assertions.commands import unit_test
+        clear_report()
+        contextualize_report(UNIT_STUDENT)
+        run()
+        cases = [UNIT_CASES[n] for n in case['cases']]
+        n = len(cases)
+        passes = sum(1 for c in case['cases'] if c in ('T', 'ST', 'T2'))
+        total = case['total']
+        mode = case['mode']
+        try:
+            if mode == 'total-partial':
+                ret = unit_test('add', *cases, score='+%d%%' % total, partial_credit=True)
+                want = None if passes == n else round(passes * (total / 100.0) / n, 2)
+                # pedal documents careless rounding of the per-case share to whole percents: only exact shares are judged
+                if (total * 100) % n != 0 or total % n != 0:
+                    want = None
+            elif mode == 'total-partial-numeric':
+                ret = unit_test('add', *cases, score=total / 100.0, partial_credit=True)
+                want = None if passes == n else round(passes * (total / 100.0) / n, 2)
+                if round(passes * (total / 100.0) / n, 4) != round(passes * (total / 100.0) / n, 2):
+                    want = None     # a share with more than two decimals: rounding order is not specified
+            elif mode == 'list':
+                ret = unit_test('add', *cases, partial_credit=['+%d%%' % (total // 10)] * n)
+                want = None if passes == n else round(passes * (total // 10) / 100.0, 2)
+            elif mode == 'single':
+                ret = unit_test('add', *cases, partial_credit='+%d%%' % (total // 10))
+                want = None if passes == n else round(passes * (total // 10) / 100.0, 2)
+            else:
+                ret = unit_test('add', *cases, score='+%d%%' % total, partial_credit=False)
+                want = None if passes == n else 0
+            final = simple.resolve()
+        except Exception as ex:
+            ctx.violation('C03|unit_test-scenario-raised|%s|%s' % (type(ex).__name__, site_of(ex)), case, traceback.format_exc()[-600:])
+            return
+        ctx.count('resolves_checked')
+        ctx.count('unit_test_scenarios')
+        shape = 'with-string-argument-cases' if any(c.startswith('S') for c in case['cases']) else 'tuple-cases-only'
+        ctx.seen('unit_test_shapes', mode + '/' + shape)
+        ctx.case(canonical(case) if 0 < passes < n else None)
+        if bool(ret) != (passes == n):
+            ctx.violation('C03|unit_test-return|%s' % shape, case, 'returned %r with %d of %d passing' % (ret, passes, n))
+        if want is not None and abs(final.score - want) > 1e-9:
+            ctx.violation('C03|unit_test-partial-credit|%s|%s' % (mode, shape), case,
+                          '%d of %d cases pass, total %d%%: expected score %s, final.score %r' % (passes, n, total, want, final.score))
+        # the generic table must also hold on this real report
+        try:
+            problems, e = model.check(MAIN_REPORT_of(), final, which=(which,))
+            for prop, key, detail in problems:
+                if prop == which:
+                    ctx.violation(key + '|unit_test-scenario', case, detail)
+        except model.Unmodelled:
+            ctx.count('unmodelled')
+        return
+    if case['scenario'] == 'tools':
+        from pedal.core import commands as cmd
+        from pedal.source import verify
+        from pedal.sandbox import commands as sbx
+        from pedal.tifa import tifa_analysis
+        from pedal.assertions.runtime import assert_equal
+        pieces = case['pieces']
+        src = "def add(a, b):\n    return a + b\nvalue = add(1, 2)\nprint(value)\n"
+        if 'syntax-error' in pieces:
+            src = "def add(a, b)\n    return a + b\n"
+        elif 'runtime-error' in pieces:
+            src = "def add(a, b):\n    return a + b\nvalue = add(1, 2)\nprint(value)\nitems = [1]\nprint(items[3])\n"
+        elif 'tifa-issue' in pieces:
+            src = "def add(a, b):\n    return a + b\nvalue = add(1, 2)\nprint(value)\nprint(never_defined)\n"
+        clear_report()
+        contextualize_report(src)
+        ran = False
+        live_negative = False
+        try:
+            for piece in pieces:
+                if piece == 'syntax-error':
+                    verify()
+                    live_negative = True
+                elif piece == 'runtime-error':
+                    sbx.run()
+                    ran = True
+                    live_negative = True
+                elif piece == 'tifa-issue':
+                    tifa_analysis()
+                    live_negative = True
+                elif piece == 'failed-assert':
+                    assert_equal(1, 2)
+                    live_negative = True
+                elif piece == 'passing-assert':
+                    assert_equal(3, 3)
+                elif piece == 'explain':
+                    cmd.explain('You made a mistake', label='mistake_here')
+                    live_negative = True
+                elif piece == 'set_correct':
+                    cmd.set_correct()
+                elif piece == 'compliment':
+                    cmd.compliment('Nice naming')
+                elif piece == 'give_partial':
+                    cmd.give_partial(0.25)
+                elif piece == 'muted-negative':
+                    cmd.explain('hidden', label='hidden_one', muted=True)
+                elif piece == 'suppressed-negative':
+                    cmd.suppress('instructor', 'suppressed_one')
+                    cmd.explain('suppressed', label='suppressed_one')
+            final = simple.resolve()
+        except Exception as ex:
+            ctx.violation('C02|tool-scenario-raised|%s|%s' % (type(ex).__name__, site_of(ex)), case, traceback.format_exc()[-600:])
+            return
+        ctx.count('resolves_checked')
+        ctx.count('tool_scenarios')
+        for pc in pieces:
+            ctx.seen('tool_pieces', pc)
+        nt = canonical(case) if live_negative and any(p in pieces for p in ('set_correct', 'compliment', 'give_partial')) else None
+        ctx.case(nt)
+        # the "in particular" clause: a live syntax/runtime/algorithmic/instructor/specification feedback => never correct
+        if live_negative and (final.correct or final.success or final.to_json().get('correct')):
+            kinds = '+'.join(sorted(p for p in pieces if p in ('syntax-error', 'runtime-error', 'tifa-issue', 'failed-assert', 'explain')))
+            ctx.violation('C02|reported-correct-with-live-negative|%s' % kinds, case,
+                          'correct=%r success=%r although %s fired (order: %s)' % (final.correct, final.success, kinds, pieces))
+        try:
+            problems, e = model.check(MAIN_REPORT_of(), final, which=(which,))
+            for prop, key, detail in problems:
+                if prop == which:
+                    ctx.violation(key + '|tool-scenario', case, detail)
+        except model.Unmodelled:
+            ctx.count('unmodelled')
+        return
+
+
+def MAIN_REPORT_of():
+    from pedal.core.report import MAIN_REPORT
+    return MAIN_REPORT
